@@ -1,0 +1,812 @@
+//! Verification hooks, compiled only with the cargo feature `verif-hooks`.
+//!
+//! Nothing in here changes what the crate does. It provides
+//!
+//! * an [`Instant`] that reads a per-session *virtual* clock when one is installed on the
+//!   calling thread and the real monotonic clock otherwise,
+//! * thin wrappers around `std::sync::{Mutex, RwLock, Condvar}` and `std::thread::{spawn,
+//!   JoinHandle}` that report lock / wait / spawn / join events to an optional per-session
+//!   trace and keep *held-by* and *waiting-for* tables for an external watchdog,
+//! * an optional delay callback that is invoked only *between* critical sections (before a
+//!   lock request, after a release, before a join), never inside one.
+//!
+//! A session is installed on a thread with [`install`] and is inherited by every thread that
+//! is spawned through [`thread::spawn`]. Threads without a session take the fast path straight
+//! into `std`.
+
+use std::cell::RefCell;
+use std::collections::HashMap;
+use std::ops::{Add, AddAssign, Sub};
+use std::sync::atomic::{AtomicU32, AtomicU64, AtomicUsize, Ordering};
+use std::sync::{Arc, OnceLock};
+use std::time::Duration;
+
+// ---------------------------------------------------------------------------------------------
+// Sessions
+// ---------------------------------------------------------------------------------------------
+
+/// How a lock is requested.
+#[derive(Clone, Copy, Debug, PartialEq, Eq, Hash)]
+pub enum Mode {
+    Mutex,
+    Read,
+    Write,
+}
+
+/// One recorded synchronisation event. `t` is the session-local logical thread id.
+#[derive(Clone, Debug, PartialEq, Eq)]
+pub enum Event {
+    Request { t: u32, lock: usize, class: &'static str, mode: Mode },
+    Acquired { t: u32, lock: usize, class: &'static str, mode: Mode },
+    Released { t: u32, lock: usize, class: &'static str, mode: Mode },
+    WaitBegin { t: u32, cv: usize, lock: usize, timeout: Option<Duration> },
+    WaitEnd { t: u32, cv: usize, lock: usize, timed_out: bool },
+    Notify { t: u32, cv: usize, all: bool },
+    Spawn { t: u32, child: u32 },
+    ThreadStart { t: u32 },
+    ThreadExit { t: u32 },
+    JoinBegin { t: u32, target: u32 },
+    JoinEnd { t: u32, target: u32 },
+}
+
+/// What a blocked thread is waiting for.
+#[derive(Clone, Debug, PartialEq, Eq)]
+pub enum WaitFor {
+    Lock { lock: usize, class: &'static str, mode: Mode },
+    Join { target: u32 },
+    Cond { cv: usize, lock: usize, timeout: Option<Duration> },
+}
+
+/// Where the delay callback is invoked.
+#[derive(Clone, Copy, Debug, PartialEq, Eq)]
+pub enum DelayKind {
+    BeforeRequest,
+    AfterRelease,
+    BeforeJoin,
+    BeforeNotify,
+    ThreadStart,
+}
+
+#[derive(Clone, Copy, Debug)]
+pub struct DelayPoint {
+    pub thread: u32,
+    pub kind: DelayKind,
+    pub lock: usize,
+    pub class: &'static str,
+    pub mode: Mode,
+}
+
+#[derive(Default)]
+struct TraceInner {
+    events: Vec<Event>,
+    held: HashMap<usize, Vec<(u32, Mode)>>,
+    waiting: HashMap<u32, WaitFor>,
+    live: Vec<u32>,
+    exited: Vec<u32>,
+}
+
+/// Snapshot of the monitor's shadow tables, taken atomically.
+#[derive(Clone, Debug, Default)]
+pub struct Snapshot {
+    pub held: Vec<(usize, Vec<(u32, Mode)>)>,
+    pub waiting: Vec<(u32, WaitFor)>,
+    pub live: Vec<u32>,
+    pub exited: Vec<u32>,
+    pub events: usize,
+}
+
+type DelayFn = dyn Fn(&DelayPoint) + Send + Sync;
+
+pub struct Session {
+    clock: Option<Arc<AtomicU64>>,
+    trace: Option<std::sync::Mutex<TraceInner>>,
+    delay: Option<Box<DelayFn>>,
+    next_thread: AtomicU32,
+}
+
+impl Session {
+    /// `clock`: virtual nanoseconds since the session epoch (real time when `None`).
+    /// `trace`: record events and maintain the held-by / waiting-for tables.
+    pub fn new(
+        clock: Option<Arc<AtomicU64>>,
+        trace: bool,
+        delay: Option<Box<DelayFn>>,
+    ) -> Arc<Self> {
+        Arc::new(Self {
+            clock,
+            trace: trace.then(|| std::sync::Mutex::new(TraceInner::default())),
+            delay,
+            next_thread: AtomicU32::new(1),
+        })
+    }
+
+    pub fn take_events(&self) -> Vec<Event> {
+        match &self.trace {
+            Some(t) => std::mem::take(&mut lock_ignore_poison(t).events),
+            None => Vec::new(),
+        }
+    }
+
+    pub fn snapshot(&self) -> Snapshot {
+        match &self.trace {
+            Some(t) => {
+                let t = lock_ignore_poison(t);
+                let mut held: Vec<_> = t.held.iter().map(|(k, v)| (*k, v.clone())).collect();
+                held.sort_by_key(|(k, _)| *k);
+                let mut waiting: Vec<_> = t.waiting.iter().map(|(k, v)| (*k, v.clone())).collect();
+                waiting.sort_by_key(|(k, _)| *k);
+                Snapshot {
+                    held,
+                    waiting,
+                    live: t.live.clone(),
+                    exited: t.exited.clone(),
+                    events: t.events.len(),
+                }
+            }
+            None => Snapshot::default(),
+        }
+    }
+
+    fn with_trace(&self, f: impl FnOnce(&mut TraceInner)) {
+        if let Some(t) = &self.trace {
+            f(&mut lock_ignore_poison(t));
+        }
+    }
+
+    fn delay(&self, point: DelayPoint) {
+        if let Some(d) = &self.delay {
+            d(&point);
+        }
+    }
+}
+
+fn lock_ignore_poison<T>(m: &std::sync::Mutex<T>) -> std::sync::MutexGuard<'_, T> {
+    match m.lock() {
+        Ok(g) => g,
+        Err(p) => p.into_inner(),
+    }
+}
+
+#[derive(Clone)]
+struct Ctx {
+    session: Arc<Session>,
+    thread: u32,
+}
+
+thread_local! {
+    static CTX: RefCell<Option<Ctx>> = const { RefCell::new(None) };
+}
+
+fn ctx() -> Option<Ctx> {
+    CTX.try_with(|c| c.borrow().clone()).ok().flatten()
+}
+
+/// Install (or with `None` remove) a session on the calling thread, which becomes logical
+/// thread 0 of that session.
+pub fn install(session: Option<Arc<Session>>) {
+    CTX.with(|c| {
+        *c.borrow_mut() = session.map(|session| {
+            session.with_trace(|t| {
+                if !t.live.contains(&0) {
+                    t.live.push(0);
+                }
+            });
+            Ctx { session, thread: 0 }
+        });
+    });
+}
+
+/// The logical thread id of the calling thread in its session, if any.
+pub fn current_thread() -> Option<u32> {
+    ctx().map(|c| c.thread)
+}
+
+static NEXT_LOCK: AtomicUsize = AtomicUsize::new(1);
+
+fn new_lock_id() -> usize {
+    NEXT_LOCK.fetch_add(1, Ordering::Relaxed)
+}
+
+// ---------------------------------------------------------------------------------------------
+// Instant
+// ---------------------------------------------------------------------------------------------
+
+static EPOCH: OnceLock<std::time::Instant> = OnceLock::new();
+
+fn epoch() -> std::time::Instant {
+    *EPOCH.get_or_init(std::time::Instant::now)
+}
+
+/// Drop-in for the subset of `std::time::Instant` the crate uses.
+#[derive(Clone, Copy, Debug, PartialEq, Eq, PartialOrd, Ord, Hash)]
+pub struct Instant(std::time::Instant);
+
+impl Instant {
+    pub fn now() -> Self {
+        if let Some(ctx) = ctx() {
+            if let Some(clock) = &ctx.session.clock {
+                return Self(epoch() + Duration::from_nanos(clock.load(Ordering::SeqCst)));
+            }
+        }
+        Self(std::time::Instant::now())
+    }
+
+    pub fn elapsed(&self) -> Duration {
+        Self::now().0.saturating_duration_since(self.0)
+    }
+
+    pub fn duration_since(&self, earlier: Self) -> Duration {
+        self.0.saturating_duration_since(earlier.0)
+    }
+
+    pub fn saturating_duration_since(&self, earlier: Self) -> Duration {
+        self.0.saturating_duration_since(earlier.0)
+    }
+
+    pub fn checked_duration_since(&self, earlier: Self) -> Option<Duration> {
+        self.0.checked_duration_since(earlier.0)
+    }
+
+    pub fn checked_add(&self, d: Duration) -> Option<Self> {
+        self.0.checked_add(d).map(Self)
+    }
+
+    pub fn checked_sub(&self, d: Duration) -> Option<Self> {
+        self.0.checked_sub(d).map(Self)
+    }
+}
+
+impl Sub<Instant> for Instant {
+    type Output = Duration;
+    fn sub(self, rhs: Instant) -> Duration {
+        self.0.saturating_duration_since(rhs.0)
+    }
+}
+
+impl Add<Duration> for Instant {
+    type Output = Instant;
+    fn add(self, rhs: Duration) -> Instant {
+        Instant(self.0 + rhs)
+    }
+}
+
+impl AddAssign<Duration> for Instant {
+    fn add_assign(&mut self, rhs: Duration) {
+        self.0 += rhs;
+    }
+}
+
+impl Sub<Duration> for Instant {
+    type Output = Instant;
+    fn sub(self, rhs: Duration) -> Instant {
+        Instant(self.0 - rhs)
+    }
+}
+
+// ---------------------------------------------------------------------------------------------
+// sync
+// ---------------------------------------------------------------------------------------------
+
+pub mod sync {
+    use super::{ctx, new_lock_id, Ctx, DelayKind, DelayPoint, Event, Mode, WaitFor};
+    use std::fmt;
+    use std::ops::{Deref, DerefMut};
+    use std::sync::{LockResult, PoisonError, TryLockError, TryLockResult};
+    use std::time::Duration;
+
+    pub use std::sync::{Arc, OnceLock, Weak};
+
+    fn class_of<T: ?Sized>() -> &'static str {
+        std::any::type_name::<T>()
+    }
+
+    fn before_request(c: &Ctx, lock: usize, class: &'static str, mode: Mode) {
+        c.session.delay(DelayPoint {
+            thread: c.thread,
+            kind: DelayKind::BeforeRequest,
+            lock,
+            class,
+            mode,
+        });
+        c.session.with_trace(|t| {
+            t.events.push(Event::Request { t: c.thread, lock, class, mode });
+            t.waiting.insert(c.thread, WaitFor::Lock { lock, class, mode });
+        });
+    }
+
+    fn acquired(c: &Ctx, lock: usize, class: &'static str, mode: Mode) {
+        c.session.with_trace(|t| {
+            t.events.push(Event::Acquired { t: c.thread, lock, class, mode });
+            t.waiting.remove(&c.thread);
+            t.held.entry(lock).or_default().push((c.thread, mode));
+        });
+    }
+
+    fn released(c: &Ctx, lock: usize, class: &'static str, mode: Mode, delay: bool) {
+        c.session.with_trace(|t| {
+            t.events.push(Event::Released { t: c.thread, lock, class, mode });
+            if let Some(v) = t.held.get_mut(&lock) {
+                if let Some(i) = v.iter().position(|(th, m)| *th == c.thread && *m == mode) {
+                    v.remove(i);
+                }
+                if v.is_empty() {
+                    t.held.remove(&lock);
+                }
+            }
+        });
+        if delay && !std::thread::panicking() {
+            c.session.delay(DelayPoint {
+                thread: c.thread,
+                kind: DelayKind::AfterRelease,
+                lock,
+                class,
+                mode,
+            });
+        }
+    }
+
+    // ----- Mutex ------------------------------------------------------------------------------
+
+    pub struct Mutex<T: ?Sized> {
+        id: usize,
+        inner: std::sync::Mutex<T>,
+    }
+
+    impl<T> Mutex<T> {
+        pub fn new(t: T) -> Self {
+            Self {
+                id: new_lock_id(),
+                inner: std::sync::Mutex::new(t),
+            }
+        }
+    }
+
+    impl<T: Default> Default for Mutex<T> {
+        fn default() -> Self {
+            Self::new(T::default())
+        }
+    }
+
+    impl<T: ?Sized + fmt::Debug> fmt::Debug for Mutex<T> {
+        fn fmt(&self, f: &mut fmt::Formatter<'_>) -> fmt::Result {
+            self.inner.fmt(f)
+        }
+    }
+
+    impl<T: ?Sized> Mutex<T> {
+        pub fn lock(&self) -> LockResult<MutexGuard<'_, T>> {
+            let ctx = ctx();
+            if let Some(c) = &ctx {
+                before_request(c, self.id, class_of::<T>(), Mode::Mutex);
+            }
+            let res = self.inner.lock();
+            if let Some(c) = &ctx {
+                acquired(c, self.id, class_of::<T>(), Mode::Mutex);
+            }
+            match res {
+                Ok(g) => Ok(MutexGuard { inner: Some(g), lock: self, ctx }),
+                Err(p) => Err(PoisonError::new(MutexGuard {
+                    inner: Some(p.into_inner()),
+                    lock: self,
+                    ctx,
+                })),
+            }
+        }
+
+        pub fn try_lock(&self) -> TryLockResult<MutexGuard<'_, T>> {
+            let ctx = ctx();
+            match self.inner.try_lock() {
+                Ok(g) => {
+                    if let Some(c) = &ctx {
+                        acquired(c, self.id, class_of::<T>(), Mode::Mutex);
+                    }
+                    Ok(MutexGuard { inner: Some(g), lock: self, ctx })
+                }
+                Err(TryLockError::WouldBlock) => Err(TryLockError::WouldBlock),
+                Err(TryLockError::Poisoned(p)) => {
+                    if let Some(c) = &ctx {
+                        acquired(c, self.id, class_of::<T>(), Mode::Mutex);
+                    }
+                    Err(TryLockError::Poisoned(PoisonError::new(MutexGuard {
+                        inner: Some(p.into_inner()),
+                        lock: self,
+                        ctx,
+                    })))
+                }
+            }
+        }
+
+        pub fn is_poisoned(&self) -> bool {
+            self.inner.is_poisoned()
+        }
+    }
+
+    pub struct MutexGuard<'a, T: ?Sized> {
+        inner: Option<std::sync::MutexGuard<'a, T>>,
+        lock: &'a Mutex<T>,
+        ctx: Option<Ctx>,
+    }
+
+    impl<T: ?Sized> Deref for MutexGuard<'_, T> {
+        type Target = T;
+        fn deref(&self) -> &T {
+            self.inner.as_ref().unwrap()
+        }
+    }
+
+    impl<T: ?Sized> DerefMut for MutexGuard<'_, T> {
+        fn deref_mut(&mut self) -> &mut T {
+            self.inner.as_mut().unwrap()
+        }
+    }
+
+    impl<T: ?Sized> Drop for MutexGuard<'_, T> {
+        fn drop(&mut self) {
+            if let Some(g) = self.inner.take() {
+                drop(g);
+                if let Some(c) = &self.ctx {
+                    released(c, self.lock.id, class_of::<T>(), Mode::Mutex, true);
+                }
+            }
+        }
+    }
+
+    // ----- RwLock -----------------------------------------------------------------------------
+
+    pub struct RwLock<T: ?Sized> {
+        id: usize,
+        inner: std::sync::RwLock<T>,
+    }
+
+    impl<T> RwLock<T> {
+        pub fn new(t: T) -> Self {
+            Self {
+                id: new_lock_id(),
+                inner: std::sync::RwLock::new(t),
+            }
+        }
+    }
+
+    impl<T: ?Sized + fmt::Debug> fmt::Debug for RwLock<T> {
+        fn fmt(&self, f: &mut fmt::Formatter<'_>) -> fmt::Result {
+            self.inner.fmt(f)
+        }
+    }
+
+    impl<T: ?Sized> RwLock<T> {
+        pub fn read(&self) -> LockResult<RwLockReadGuard<'_, T>> {
+            let ctx = ctx();
+            if let Some(c) = &ctx {
+                before_request(c, self.id, class_of::<T>(), Mode::Read);
+            }
+            let res = self.inner.read();
+            if let Some(c) = &ctx {
+                acquired(c, self.id, class_of::<T>(), Mode::Read);
+            }
+            match res {
+                Ok(g) => Ok(RwLockReadGuard { inner: Some(g), lock: self, ctx }),
+                Err(p) => Err(PoisonError::new(RwLockReadGuard {
+                    inner: Some(p.into_inner()),
+                    lock: self,
+                    ctx,
+                })),
+            }
+        }
+
+        pub fn write(&self) -> LockResult<RwLockWriteGuard<'_, T>> {
+            let ctx = ctx();
+            if let Some(c) = &ctx {
+                before_request(c, self.id, class_of::<T>(), Mode::Write);
+            }
+            let res = self.inner.write();
+            if let Some(c) = &ctx {
+                acquired(c, self.id, class_of::<T>(), Mode::Write);
+            }
+            match res {
+                Ok(g) => Ok(RwLockWriteGuard { inner: Some(g), lock: self, ctx }),
+                Err(p) => Err(PoisonError::new(RwLockWriteGuard {
+                    inner: Some(p.into_inner()),
+                    lock: self,
+                    ctx,
+                })),
+            }
+        }
+
+        pub fn is_poisoned(&self) -> bool {
+            self.inner.is_poisoned()
+        }
+    }
+
+    pub struct RwLockReadGuard<'a, T: ?Sized> {
+        inner: Option<std::sync::RwLockReadGuard<'a, T>>,
+        lock: &'a RwLock<T>,
+        ctx: Option<Ctx>,
+    }
+
+    impl<T: ?Sized> Deref for RwLockReadGuard<'_, T> {
+        type Target = T;
+        fn deref(&self) -> &T {
+            self.inner.as_ref().unwrap()
+        }
+    }
+
+    impl<T: ?Sized> Drop for RwLockReadGuard<'_, T> {
+        fn drop(&mut self) {
+            if let Some(g) = self.inner.take() {
+                drop(g);
+                if let Some(c) = &self.ctx {
+                    released(c, self.lock.id, class_of::<T>(), Mode::Read, true);
+                }
+            }
+        }
+    }
+
+    pub struct RwLockWriteGuard<'a, T: ?Sized> {
+        inner: Option<std::sync::RwLockWriteGuard<'a, T>>,
+        lock: &'a RwLock<T>,
+        ctx: Option<Ctx>,
+    }
+
+    impl<T: ?Sized> Deref for RwLockWriteGuard<'_, T> {
+        type Target = T;
+        fn deref(&self) -> &T {
+            self.inner.as_ref().unwrap()
+        }
+    }
+
+    impl<T: ?Sized> DerefMut for RwLockWriteGuard<'_, T> {
+        fn deref_mut(&mut self) -> &mut T {
+            self.inner.as_mut().unwrap()
+        }
+    }
+
+    impl<T: ?Sized> Drop for RwLockWriteGuard<'_, T> {
+        fn drop(&mut self) {
+            if let Some(g) = self.inner.take() {
+                drop(g);
+                if let Some(c) = &self.ctx {
+                    released(c, self.lock.id, class_of::<T>(), Mode::Write, true);
+                }
+            }
+        }
+    }
+
+    // ----- Condvar ----------------------------------------------------------------------------
+
+    #[derive(Clone, Copy, Debug, PartialEq, Eq)]
+    pub struct WaitTimeoutResult(bool);
+
+    impl WaitTimeoutResult {
+        pub fn timed_out(&self) -> bool {
+            self.0
+        }
+    }
+
+    pub struct Condvar {
+        id: usize,
+        inner: std::sync::Condvar,
+    }
+
+    impl Default for Condvar {
+        fn default() -> Self {
+            Self::new()
+        }
+    }
+
+    impl fmt::Debug for Condvar {
+        fn fmt(&self, f: &mut fmt::Formatter<'_>) -> fmt::Result {
+            self.inner.fmt(f)
+        }
+    }
+
+    impl Condvar {
+        pub fn new() -> Self {
+            Self {
+                id: new_lock_id(),
+                inner: std::sync::Condvar::new(),
+            }
+        }
+
+        fn wait_begin<T: ?Sized>(&self, g: &MutexGuard<'_, T>, timeout: Option<Duration>) {
+            if let Some(c) = &g.ctx {
+                let (cv, lock) = (self.id, g.lock.id);
+                // The mutex is released atomically with the start of the wait: no delay here.
+                released(c, lock, class_of::<T>(), Mode::Mutex, false);
+                c.session.with_trace(|t| {
+                    t.events.push(Event::WaitBegin { t: c.thread, cv, lock, timeout });
+                    t.waiting.insert(c.thread, WaitFor::Cond { cv, lock, timeout });
+                });
+            }
+        }
+
+        fn wait_end<T: ?Sized>(&self, ctx: &Option<Ctx>, lock: &Mutex<T>, timed_out: bool) {
+            if let Some(c) = ctx {
+                let (cv, lock) = (self.id, lock.id);
+                c.session.with_trace(|t| {
+                    t.events.push(Event::WaitEnd { t: c.thread, cv, lock, timed_out });
+                    t.waiting.remove(&c.thread);
+                });
+                acquired(c, lock, class_of::<T>(), Mode::Mutex);
+            }
+        }
+
+        pub fn wait<'a, T>(&self, mut guard: MutexGuard<'a, T>) -> LockResult<MutexGuard<'a, T>> {
+            self.wait_begin(&guard, None);
+            let (lock, ctx) = (guard.lock, guard.ctx.take());
+            let inner = guard.inner.take().unwrap();
+            drop(guard);
+            let res = self.inner.wait(inner);
+            self.wait_end(&ctx, lock, false);
+            match res {
+                Ok(g) => Ok(MutexGuard { inner: Some(g), lock, ctx }),
+                Err(p) => Err(PoisonError::new(MutexGuard {
+                    inner: Some(p.into_inner()),
+                    lock,
+                    ctx,
+                })),
+            }
+        }
+
+        pub fn wait_timeout_while<'a, T, F>(
+            &self,
+            mut guard: MutexGuard<'a, T>,
+            dur: Duration,
+            condition: F,
+        ) -> LockResult<(MutexGuard<'a, T>, WaitTimeoutResult)>
+        where
+            F: FnMut(&mut T) -> bool,
+        {
+            self.wait_begin(&guard, Some(dur));
+            let (lock, ctx) = (guard.lock, guard.ctx.take());
+            let inner = guard.inner.take().unwrap();
+            drop(guard);
+            let res = self.inner.wait_timeout_while(inner, dur, condition);
+            match res {
+                Ok((g, r)) => {
+                    self.wait_end(&ctx, lock, r.timed_out());
+                    Ok((
+                        MutexGuard { inner: Some(g), lock, ctx },
+                        WaitTimeoutResult(r.timed_out()),
+                    ))
+                }
+                Err(p) => {
+                    let (g, r) = p.into_inner();
+                    self.wait_end(&ctx, lock, r.timed_out());
+                    Err(PoisonError::new((
+                        MutexGuard { inner: Some(g), lock, ctx },
+                        WaitTimeoutResult(r.timed_out()),
+                    )))
+                }
+            }
+        }
+
+        pub fn notify_one(&self) {
+            self.notify(false);
+            self.inner.notify_one();
+        }
+
+        pub fn notify_all(&self) {
+            self.notify(true);
+            self.inner.notify_all();
+        }
+
+        fn notify(&self, all: bool) {
+            if let Some(c) = ctx() {
+                c.session.delay(DelayPoint {
+                    thread: c.thread,
+                    kind: DelayKind::BeforeNotify,
+                    lock: self.id,
+                    class: "condvar",
+                    mode: Mode::Mutex,
+                });
+                c.session.with_trace(|t| {
+                    t.events.push(Event::Notify { t: c.thread, cv: self.id, all });
+                });
+            }
+        }
+    }
+}
+
+// ---------------------------------------------------------------------------------------------
+// thread
+// ---------------------------------------------------------------------------------------------
+
+pub mod thread {
+    use super::{ctx, Ctx, DelayKind, DelayPoint, Event, Mode, WaitFor, CTX};
+    use std::sync::atomic::Ordering;
+
+    pub use std::thread::{panicking, sleep, yield_now, Result};
+
+    pub struct JoinHandle<T> {
+        inner: std::thread::JoinHandle<T>,
+        target: Option<u32>,
+    }
+
+    impl<T> JoinHandle<T> {
+        pub fn join(self) -> Result<T> {
+            let ctx = ctx();
+            if let (Some(c), Some(target)) = (&ctx, self.target) {
+                c.session.delay(DelayPoint {
+                    thread: c.thread,
+                    kind: DelayKind::BeforeJoin,
+                    lock: target as usize,
+                    class: "thread",
+                    mode: Mode::Mutex,
+                });
+                c.session.with_trace(|t| {
+                    t.events.push(Event::JoinBegin { t: c.thread, target });
+                    t.waiting.insert(c.thread, WaitFor::Join { target });
+                });
+            }
+            let res = self.inner.join();
+            if let (Some(c), Some(target)) = (&ctx, self.target) {
+                c.session.with_trace(|t| {
+                    t.events.push(Event::JoinEnd { t: c.thread, target });
+                    t.waiting.remove(&c.thread);
+                });
+            }
+            res
+        }
+
+        pub fn is_finished(&self) -> bool {
+            self.inner.is_finished()
+        }
+
+        pub fn thread(&self) -> &std::thread::Thread {
+            self.inner.thread()
+        }
+
+        /// Session-local logical id of the spawned thread.
+        pub fn logical_id(&self) -> Option<u32> {
+            self.target
+        }
+    }
+
+    struct ExitGuard(Ctx);
+
+    impl Drop for ExitGuard {
+        fn drop(&mut self) {
+            let c = &self.0;
+            c.session.with_trace(|t| {
+                t.events.push(Event::ThreadExit { t: c.thread });
+                t.live.retain(|x| *x != c.thread);
+                t.exited.push(c.thread);
+            });
+        }
+    }
+
+    pub fn spawn<F, T>(f: F) -> JoinHandle<T>
+    where
+        F: FnOnce() -> T + Send + 'static,
+        T: Send + 'static,
+    {
+        let parent = ctx();
+        let child = parent.as_ref().map(|p| Ctx {
+            session: p.session.clone(),
+            thread: p.session.next_thread.fetch_add(1, Ordering::SeqCst),
+        });
+        if let (Some(p), Some(c)) = (&parent, &child) {
+            p.session.with_trace(|t| {
+                t.events.push(Event::Spawn { t: p.thread, child: c.thread });
+                t.live.push(c.thread);
+            });
+        }
+        let target = child.as_ref().map(|c| c.thread);
+        let inner = std::thread::spawn(move || {
+            let _guard = child.map(|c| {
+                CTX.with(|slot| *slot.borrow_mut() = Some(c.clone()));
+                c.session.with_trace(|t| t.events.push(Event::ThreadStart { t: c.thread }));
+                c.session.delay(DelayPoint {
+                    thread: c.thread,
+                    kind: DelayKind::ThreadStart,
+                    lock: 0,
+                    class: "thread",
+                    mode: Mode::Mutex,
+                });
+                ExitGuard(c)
+            });
+            f()
+        });
+        JoinHandle { inner, target }
+    }
+}
